@@ -20,6 +20,9 @@ func (g *gctx) rollPrimary(n uint32, from int) {
 	if mp == nil {
 		return
 	}
+	if from >= len(g.u.Keys) {
+		from = 0 // tiny universe: reuse the first keys
+	}
 	for i := 0; i < 60 && mp.VerifFileNum() < n; i++ {
 		k := from + i%(len(g.u.Keys)-from)
 		g.do(0, g.put(k, 50+i%5))
@@ -30,6 +33,10 @@ func (g *gctx) rollPrimary(n uint32, from int) {
 var gatedC14 = []gscen{
 	{"G21-reader-holds-cached-handle-while-another-read-of-that-file-fails", func(g *gctx) {
 		// keys 0 and 1 share primary file 0, key 1's record is the last one of that file
+		if len(g.u.Keys) < 3 {
+			g.res.Add("gated_windows_not_applicable_to_universe", 1) // needs a third key to roll the files with
+			return
+		}
 		g.do(0, g.put(0, 30))
 		fill := int(g.pl.Cfg.PrimaryFileSize) - (4 + len(g.u.Keys[0].Raw) + 30) - (4 + len(g.u.Keys[1].Raw))
 		if fill < 30 {
